@@ -507,6 +507,7 @@ func (proj *Project) loadPackage(wg *sync.WaitGroup, path string) error {
 				proj.loadModule(nil, &label.Label{Kind: "module", Package: path, Name: "BUILD.dawn"})
 				wg.Done()
 			}()
+			verifhook.Yield("loadPackage.spawned")
 		}
 	}
 
